@@ -1,7 +1,7 @@
 CFG = {'assumptions': ["every position, size and n stays below 2^31 - 64 (Go's int32 cannot overflow; larger values are outside every statement). The exact bounds are the hypotheses of C12_int32_Of / _OfMany / _ToArray / _Builder, which prove that the int32-wrapped model (Model/BitmapOf32.v) equals the unbounded one there",
                  'every word is in [0,2^64) (words_ok)',
                  'position lists are ascending (duplicates allowed) and non-negative; sizes and Set positions are non-negative',
-                 'OfMany is compared only where the shifted concatenation is ascending (DESIGN section 6, C12, interpretation recorded); Builder has no such restriction',
+                 'OfMany is compared functionally (set of shifted positions, word count) on its whole non-panic domain, positions at or past a segment size in any segment included (ofmany_dom2; the panic condition is C12_OfMany_total); where the real OfMany panics only the relation OfMany = Of(shifted, sum) is observed; direct Of on unsorted lists is not compared',
                  "Builder: 'enough words for every bit' is read as: every set position is below 64*len(Words) (implied by ones(flat Words) = the positions set so far); the exact word count is compared with the model only (correspondence), not required by the checker"],
  'files': ['bitmap/of.go', 'bitmap/ofmany.go', 'bitmap/builder.go', 'bitmap/toarray.go', 'bitmap/get.go', 'bitmap/mask.go', 'bitmap/fmt.go'],
  'go': {'bitmap.Of': 'bitmap.Of',
@@ -30,7 +30,7 @@ CFG = {'assumptions': ["every position, size and n stays below 2^31 - 64 (Go's i
          'integers single and in slices of 0..5 (boundaries, single bits, complements, random), on Of(...) bitmaps, on '
          'non-integer types; Rank64/Rank128/NextOne/PrevOne on Of(ps,n) and on Builder.Words (i at / next to a set position, on word '
          'edges, random; e = end, = i, i+1..i+65, random); OfMany against Of(shifted concatenation, sum of sizes) with positions >= size in any '
-         'segment (non-ascending concatenations, panics): only the agreement of the two calls is observed; exhaustive: Get/SafeGet at every i in [-130, 64*len+130] on 6 small bitmaps, '
-         'every Builder history of 1..2 (thorough 3) calls over a 10-call alphabet, every OfMany list of 0..3 segments over a 7-segment alphabet. Non-trivial: '
+         'segment (non-ascending concatenations, panics): only the agreement of the two calls is observed, and where OfMany does not panic also its set of bits and its agreement with a Builder fed the same segments (overhangs of 64..200 past sizes 1..40 followed by small positions, so that words are revisited); exhaustive: Get/SafeGet at every i in [-130, 64*len+130] on 6 small bitmaps, '
+         'every Builder history of 1..2 (thorough 3) calls over a 10-call alphabet, every OfMany list of 0..3 segments over a 12-segment alphabet (5 with overhang). Non-trivial: '
          'non-empty position list / bitmap with a 1-bit / probed word neither 0 nor all-ones / >1 segment with a '
          'position / >1 call; distinct = distinct (op,args)'}
